@@ -90,6 +90,26 @@ impl FromStr for Cur {
     }
 }
 
+/// Two custom parameters whose names differ in their first letter only.
+#[derive(Debug, Parameter)]
+#[param(name = "cat", regex = r"meow|purr")]
+pub struct Cat(String);
+impl FromStr for Cat {
+    type Err = String;
+    fn from_str(s: &str) -> Result<Self, String> {
+        Ok(Cat(s.to_owned()))
+    }
+}
+#[derive(Debug, Parameter)]
+#[param(name = "bat", regex = r"screech|flap")]
+pub struct Bat(String);
+impl FromStr for Bat {
+    type Err = String;
+    fn from_str(s: &str) -> Result<Self, String> {
+        Ok(Bat(s.to_owned()))
+    }
+}
+
 // ---- literals -------------------------------------------------------------
 #[given("a literal step")]
 fn lit_sync(w: &mut ZA) {
@@ -233,6 +253,22 @@ gen_step!(lit_macro_ret_ok, "lit_macro_ret_ok", "macro made ok", Result<(), Stri
 #[given(regex = r"^(?P<__user>\w+) logs in with (?P<__pass>\w+)$")]
 fn re_dunder_named(_w: &mut ZA, user: String, pass: String) {
     rec("re_dunder_named", format!("{user:?},{pass:?}"));
+}
+
+#[when(expr = "the {cat} meets the {bat}")]
+fn ex_twin_param_names(_w: &mut ZA, c: Cat, b: Bat) {
+    rec("ex_twin_param_names", format!("{c:?},{b:?}"));
+}
+
+// user-named groups starting with `__` whose names are not ASCII
+#[given(regex = r"^(?P<__é1_a>\d+) plus (?P<__é2_b>\d+) apples$")]
+fn re_dunder_non_ascii(_w: &mut ZA, a: u32, b: u32) {
+    rec("re_dunder_non_ascii", format!("{a:?},{b:?}"));
+}
+
+#[then(regex = r"^(?P<__1é_a>\w+) then (?P<__2é_b>\w+) then (?P<__3é_c>\w+) stop$")]
+fn re_dunder_non_ascii_slice(_w: &mut ZA, xs: &[String]) {
+    rec("re_dunder_non_ascii_slice", format!("{xs:?}"));
 }
 
 #[when(regex = r"^(?P<__a>\w+) and (?P<__b>\w+) log out$")]
@@ -460,6 +496,9 @@ fn defs() -> Vec<Def> {
         Def { world: 'A', kw: Given, id: "lit_macro_ret_err", how: Literal("macro made err"), expect: |_, _| Err("from a macro-made step".into()) },
         Def { world: 'A', kw: Given, id: "lit_macro_ret_ok", how: Literal("macro made ok"), expect: none },
         Def { world: 'A', kw: Given, id: "re_dunder_named", how: Re(r"^(?P<__user>\w+) logs in with (?P<__pass>\w+)$"), expect: |g, _| Ok(format!("{:?},{:?}", g[0], g[1])) },
+        Def { world: 'A', kw: When, id: "ex_twin_param_names", how: Expr("the {cat} meets the {bat}", r"^the (meow|purr) meets the (screech|flap)$"), expect: |g, _| Ok(format!("Cat({:?}),Bat({:?})", g[0], g[1])) },
+        Def { world: 'A', kw: Given, id: "re_dunder_non_ascii", how: Re(r"^(?P<__é1_a>\d+) plus (?P<__é2_b>\d+) apples$"), expect: |g, _| match (g[0].parse::<u32>(), g[1].parse::<u32>()) { (Ok(a), Ok(b)) => Ok(format!("{a:?},{b:?}")), _ => Err("can not be parsed".into()) } },
+        Def { world: 'A', kw: Then, id: "re_dunder_non_ascii_slice", how: Re(r"^(?P<__1é_a>\w+) then (?P<__2é_b>\w+) then (?P<__3é_c>\w+) stop$"), expect: |g, _| Ok(format!("{g:?}")) },
         Def { world: 'A', kw: When, id: "re_dunder_named_slice", how: Re(r"^(?P<__a>\w+) and (?P<__b>\w+) log out$"), expect: |g, _| Ok(format!("{g:?}")) },
         Def { world: 'A', kw: Then, id: "ex_nested_param", how: Expr("due on {date}", r"^due on ((\d{4})-(\d{2})-(\d{2}))$"), expect: |g, _| if g[0].len() == 10 { Ok(format!("{:?}", g[0])) } else { Err("can not be parsed".into()) } },
         Def { world: 'A', kw: Then, id: "re_with_step", how: Re(r"^step arg (\d+)$"), expect: |g, t| g[0].parse::<u8>().map(|n| format!("{n:?},{t:?}")).map_err(|_| "can not be parsed".into()) },
@@ -567,6 +606,8 @@ const CORPUS: &[&str] = &[
     "\"alice\" owes 5 coins", "'alice' owes 1 coin", "\"alice\" owes x coins", "alice owes 5 coins",
     "\"a\" pays \"b\" at noon", "'a' pays \"b\" at noon", "\"a\" pays 'b' at noon", "'a' pays 'b' at noon", "\"\" pays \"b\" at noon",
     "5 pcs of apples for 3", "few of pears for -2", "many of x for y", "5 of apples for 3",
+    "the meow meets the flap", "the purr meets the screech", "the purr meets the purr", "the flap meets the flap", "the meow meets the",
+    "3 plus 4 apples", "3 plus x apples", "99999999999 plus 1 apples", "x then y then z stop", "x then y stop",
     "maybe a c", "maybe", "maybe a b c", "maybe b", "maybe c", "maybe a  c",
     "\"\" likes 'y' and few", "'x' likes \"\" and few", "\"\" likes '' and few",
     "\"x\" likes 'y' and few", "'x' likes \"y\" and 7", "\"x\" likes y and none",
